@@ -264,6 +264,18 @@ func isErrorType(t types.Type) bool {
 	return types.Identical(t, types.Universe.Lookup("error").Type())
 }
 
+// specForIn: the contract of callee as inlined into root: "Root>callee" (loop
+// invariants that speak about the root's variables) takes precedence.
+func (p *Prog) specForIn(callee, root *ssa.Function) *FuncSpec {
+	if callee.Pkg != nil && root != nil && root.Pkg != nil {
+		key := callee.Pkg.Pkg.Path() + "::" + root.RelString(root.Pkg.Pkg) + ">" + callee.RelString(callee.Pkg.Pkg)
+		if sp, ok := p.cs.Specs[key]; ok {
+			return sp
+		}
+	}
+	return p.specFor(callee)
+}
+
 func (p *Prog) specFor(fn *ssa.Function) *FuncSpec {
 	if fn.Pkg != nil {
 		if sp, ok := p.cs.Specs[fn.Pkg.Pkg.Path()+"::"+fn.RelString(fn.Pkg.Pkg)]; ok {
